@@ -25,6 +25,7 @@ DROPS = {
     "R2": "`format!(..)` -> call of an external_body fn `fmt_opaque() -> String` (message text is not reasoned about in Verus)",
     "R3": "named return value: `-> T` becomes `-> (r: T)` (ghost naming only)",
     "R7": "`match X { \"lit\" => {B1} .. ident => {Bn} }` (first arm a string literal) -> `{ let m__ = X; if str_eq(m__, \"lit\") {B1} else if .. else { let ident = m__; {Bn} } }` -- Rust's own semantics of matching a &str against literal patterns, first match wins; `str_eq` is specified as equality of the character sequences",
+    "R8": "`let P = X.ok_or_else(|| E)?;` -> `let P = match X { ::std::option::Option::Some(v__) => v__, ::std::option::Option::None => return ::std::result::Result::Err(E) };` (the definition of Option::ok_or_else followed by `?` in a function whose error type is the closure's result type)",
     "R4": "expressions replaced by an opaque value on request of @@opaque-arg (only if they contain no return / ? / break / continue)",
 }
 
@@ -143,7 +144,7 @@ def rewrite_strmatch(text, notes, where):
         j = k + 1
         while j < close:
             pat = ct[j]
-            if not (ct[j+1].text == "=" and ct[j+2].text == ">" and ct[j+3].text == "{") or pat.kind not in ("str", "ident"):
+            if not (ct[j+1].text == "=" and ct[j+2].text == ">" and ct[j+3].text == "{") or not (pat.kind in ("str", "ident") or pat.text == "_"):
                 raise Undecided(f"{where}: string match with an arm outside the supported shape (`pattern => {{ block }}`): rewrite R7 refused")
             e = match_close(ct, j + 3)
             arms.append((pat, text[ct[j+3].start:ct[e].end]))
@@ -157,10 +158,42 @@ def rewrite_strmatch(text, notes, where):
             else:
                 if n != len(arms) - 1:
                     raise Undecided(f"{where}: catch-all arm is not last: rewrite R7 refused")
-                out.append(" else { let " + pat.text + " = m__; " + b + " }")
+                out.append(" else " + b if pat.text == "_" else " else { let " + pat.text + " = m__; " + b + " }")
         out.append(" }")
         notes.append({"rule": "R7", "where": where, "arms": [p.text for p, _ in arms]})
         text = text[:ct[i].start] + "".join(out) + text[ct[close].end:]
+
+def rewrite_ok_or_else(text, notes, where):
+    """R8 (statement form only)"""
+    while True:
+        ct = code_toks(tokenize(text))
+        hit = None
+        for i, t in enumerate(ct):
+            if t.kind == "ident" and t.text == "ok_or_else" and ct[i-1].text == "." and ct[i+1].text == "(" and ct[i+2].text == "|" and ct[i+3].text == "|":
+                hit = i; break
+        if hit is None:
+            return text
+        close = match_close(ct, hit + 1)
+        if not (ct[close+1].text == "?" and ct[close+2].text == ";"):
+            raise Undecided(f"{where}: ok_or_else not followed by `?;`: rewrite R8 refused")
+        # receiver: back to the `=` of the enclosing `let`
+        j = hit - 2
+        depth = 0
+        while j >= 0:
+            tt = ct[j].text
+            if ct[j].kind == "punct" and tt in ")]}": depth += 1
+            elif ct[j].kind == "punct" and tt in "([{":
+                depth -= 1
+            elif depth == 0 and tt == "=" and ct[j-1].text not in ("=", "!", "<", ">") and ct[j+1].text not in ("=", ">"):
+                break
+            elif depth == 0 and tt in (";",):
+                raise Undecided(f"{where}: ok_or_else receiver is not a `let P = X.ok_or_else(..)?;` statement: rewrite R8 refused")
+            j -= 1
+        recv = text[ct[j+1].start:ct[hit-2].end]
+        body = text[ct[hit+4].start:ct[close-1].end]
+        new = ("match " + recv + " { ::std::option::Option::Some(v__) => v__, ::std::option::Option::None => return ::std::result::Result::Err(" + body + ") }")
+        notes.append({"rule": "R8", "where": where, "receiver": norm(code_toks(tokenize(recv)))})
+        text = text[:ct[j+1].start] + new + text[ct[close+1].end:]
 
 _for_counter = [0]
 def rewrite_for(text, notes, where):
@@ -266,6 +299,8 @@ def annotate_fn(text, fn_dirs, where, notes):
     text = rewrite_for(text, notes, where)
     if any(d["name"] == "rewrite" and d["arg"] == "strmatch" for d in fn_dirs):
         text = rewrite_strmatch(text, notes, where)
+    if any(d["name"] == "rewrite" and d["arg"] == "ok_or_else" for d in fn_dirs):
+        text = rewrite_ok_or_else(text, notes, where)
     for d in fn_dirs:
         if d["name"] == "opaque-arg":
             text = opaque_arg(text, d, where, notes)
